@@ -372,6 +372,15 @@ def discharge(m, q, p):
         for blk_guard in q.cfg.guards(p.b):
             if blk_guard[0] == "variant" and blk_guard[2] == ("Some",) and same(blk_guard[1], strip_unwrap(e)):
                 return "Option::unwrap dominated by is_some() of the same slot"
+    if p.kind == "precondition:gen_bool" and e is not None:
+        a = e[2][1] if len(e[2]) > 1 else None
+        if a is not None and a[0] == "const" and const_float(a) is not None and 0.0 <= const_float(a) <= 1.0:
+            return "gen_bool with the constant probability %s" % const_float(a)
+        return None
+    if p.kind == "precondition:gen_range" and e is not None:
+        if mentions(e, "tick_range") or mentions(e, "vol_range"):
+            return "gen_range over a configured range (assumption: non-empty ranges)"
+        return None
     if p.kind.startswith("overflow:Mul") and e is not None and any(x[0] == "call" and x[4] == "gen_range" for x in walk(e)) and mentions(e, "tick_size"):
         return "tick * tick_size with tick < tick_range.1 (assumption: configured range * tick_size < 2^32)"
     if p.kind.startswith("overflow:Add") and f.name == "new":
